@@ -330,7 +330,7 @@ def family_grammar(rng, costs=(0, 5)):
     """Hand-shaped ambiguous families with random translation specifications:
     split families (several nonterminals in one rule, each with several lengths),
     shared-subtree families, operator families, nullable families."""
-    fam = rng.choice(['split', 'split', 'shared', 'ops', 'nullable', 'chains', 'chains'])
+    fam = rng.choice(['split', 'split', 'shared', 'ops', 'nullable', 'chains', 'chains', 'stmts', 'stmts'])
     nid = [0]
 
     def an():
@@ -386,6 +386,26 @@ def family_grammar(rng, costs=(0, 5)):
             rules.append(('E', ['(', 'E', ')'], None, 0, [1]))
         rules.append(('E', ['a'], rng.choice([None, an()]), cst(), [0]))
         terms = [('a', 97), ('+', 43), ('*', 42), ('-', 45), ('(', 40), (')', 41)]
+    elif fam == 'stmts':
+        # statements with optional (nullable) trailing parts: what may follow a nonterminal
+        # is decided by the context of the enclosing rule
+        if rng.random() < 0.5:
+            rules.append(('P', ['P', 'S'], an(), cst(), [0, 1]))
+            rules.append(('P', ['S'], None, 0, [0]))
+        else:
+            rules.append(('P', ['S'], None, 0, [0]))
+        rules.append(('S', ['l', 'C', ';'], an(), cst(), [1]))
+        if rng.random() < 0.5:
+            rules.append(('S', ['k', ';'], an(), cst(), []))
+        if rng.random() < 0.4:
+            rules.append(('S', ['error', ';'], an(), cst(), []))
+        opt = rng.randint(1, 3)
+        rules.append(('C', ['N'] + ['O%d' % j for j in range(opt)], an(), cst(), [0] + ([1] if rng.random() < 0.5 else [])))
+        rules.append(('N', ['i'], None, 0, [0]))
+        for j in range(opt):
+            rules.append(('O%d' % j, [rng.choice(['a', 'b'])], an(), cst(), [0]))
+            rules.append(('O%d' % j, [], None, 0, None))
+        terms = [('l', 108), ('k', 107), (';', 59), ('i', 105), ('a', 97), ('b', 98)]
     elif fam == 'chains':
         # alternatives reaching one shared nonterminal through different unit chains,
         # told apart only by the terminal that follows (exercises lookahead contexts)
